@@ -70,7 +70,7 @@ def mutate(rng, rec, text):
         if not lines:
             break
         op = rng.choice(["delete_line", "duplicate_line", "swap_lines", "move_structural", "char_insert", "char_delete", "char_substitute",
-                         "char_substitute", "char_insert"])
+                         "char_substitute", "char_insert", "letter_case"])
         i = rng.randrange(len(lines))
         sec = section_of(lines, i)
         if sec:
@@ -83,6 +83,12 @@ def mutate(rng, rec, text):
         elif op == "swap_lines":
             j = rng.randrange(len(lines))
             lines[i], lines[j] = lines[j], lines[i]
+        elif op == "letter_case":
+            # a character edit that keeps every letter: the case of a header, a key or a kind letter ([expertsingle], [SONG], resolution = 192, n 0 0)
+            st = [k for k, ln in enumerate(lines) if ln.startswith("[")] if rng.random() < 0.7 else [i]
+            k = rng.choice(st) if st else i
+            ln = lines[k]
+            lines[k] = rng.choice([ln.lower(), ln.upper(), ln.swapcase(), ln[:2].lower() + ln[2:], ln.title()])
         elif op == "move_structural":
             st = [k for k, ln in enumerate(lines) if ln in ("{", "}") or (ln.startswith("[") and ln.endswith("]"))]
             if st:
@@ -107,7 +113,8 @@ def assemble(rng):
     out = []
     if rng.random() < 0.7:
         # skeleton with the three required sections, bodies from the pool
-        for name in rng.sample(["Song", "SyncTrack", "Events", "ExpertSingle", "EasyDrums", "Foo"], rng.randint(3, 6)):
+        for name in rng.sample(["Song", "SyncTrack", "Events", "ExpertSingle", "EasyDrums", "Foo", "expertsingle", "EXPERTDRUMS", "ExpertSingleBackup",
+                                "HardDrums2x", "events"], rng.randint(3, 7)):
             out.append(f"[{name}]")
             out.append("{")
             base = {"Song": ["  Resolution = 192"], "SyncTrack": ["  0 = TS 4", "  0 = B 120000"]}.get(name, [])
